@@ -6,7 +6,8 @@
    ([eff], computed from the wiring table of the receiver's type and the step's arguments);
    the observable part of an error is its [view].                                              *)
 From Coq Require Import NArith List Bool.
-From GT Require Import Base.GErrStr GErrModel.
+From GT Require Import Base.GErrStr.
+From GT Require Import GErrModel.
 Import ListNotations.
 
 Record eff := mkE {
